@@ -34,6 +34,10 @@ def plan(tier, seed):
                 items.append(dict(kind="sweep", date=str(d), template=t, k=100 * vi + TEMPLATES.index(t), seed=seed, rent=[350.0, 400.0, 450.0][vi - 1]))
         for k in range(3):
             items.append(dict(kind="random", date=str(d), k=k, seed=seed))
+        # clean grid: single parents and couples with 1..4 children, no other income or wealth, two rents, wage in 20-euro steps
+        for rent in (350.0, 450.0):
+            for partnered in (False, True):
+                items.append(dict(kind="grid", date=str(d), k=700 + int(rent) + int(partnered), seed=seed, rent=rent, partnered=partnered))
         items.append(dict(kind="pensioners", date=str(d), k=50, seed=seed))
     return items
 
@@ -88,7 +92,49 @@ def run_item(item):
     params, functions = env.environment(d)
     res = dict(kind=item["kind"], date=item["date"], violations=[], persons=0, recipients={}, regime_changes=0, runs=0,
                multi_bg_households=0, regimes_seen=set())
-    if item["kind"] == "pensioners":
+    if item["kind"] == "grid":
+        import pandas as pd
+
+        parts = []
+        wages = np.arange(0, 3001, 20, dtype=float)
+        for n_kids in (1, 2, 3, 4):
+            b = popgen._Builder(rng, d.year)
+            b.new_hh()
+            a = b.person(35)
+            c = None
+            if item["partnered"]:
+                c = b.person(33)
+                b.couple(a, c, True)
+            for i in range(n_kids):
+                b.child([8, 5, 3, 1][i], a, c, kind=True, in_ausbildung=False)
+            base = popgen.population(rng, d, params=params, rows=b.rows)
+            for col in base.columns:
+                if base[col].dtype.kind == "f":
+                    base[col] = 0.0
+            base["bruttokaltmiete_m_hh"] = item["rent"]
+            base["heizkosten_m_hh"] = 50.0
+            base["wohnfläche_hh"] = 60.0
+            base["arbeitsstunden_w"] = np.where(base["alter"] >= 18, 20.0, 0.0)
+            for col in ("rentner", "selbstständig", "in_priv_krankenv", "arbeitssuchend", "anwartschaftszeit", "elterngeld_claimed",
+                        "voll_erwerbsgemind", "teilw_erwerbsgemind", "eigenbedarf_gedeckt", "budgetsatz_erzieh", "schwerbeh_g"):
+                base[col] = False
+            base["behinderungsgrad"] = 0
+            base["steuerklasse"] = np.where(base["alter"] >= 18, 3 if item["partnered"] else 2, 1)
+            base["gemeinsam_veranlagt"] = (base["p_id_ehepartner"] >= 0)
+            parts.append(popgen.replicate_with_wages(base, wages, who=0))
+        n_p = max(int(p_["p_id"].max()) for p_ in parts) + 1
+        n_h = max(int(p_["hh_id"].max()) for p_ in parts) + 1
+        for i, part in enumerate(parts):
+            parts[i] = popgen.relabel(part, {int(x): int(x) + i * n_p for x in part["p_id"]}, {int(h): int(h) + i * n_h for h in part["hh_id"].unique()})
+        df = pd.concat(parts, ignore_index=True)
+        for col in parts[0].columns:
+            df[col] = df[col].astype(parts[0][col].dtype)
+        T, nodes, roots, dag, fn = env.trace(df, params, functions)
+        res["runs"] += 1
+        reg = monitor(T, res, f"grid of {'couples' if item['partnered'] else 'single parents'} with 1-4 children, rent {item['rent']}, at {item['date']}")
+        res["regimes_seen"] |= set(reg.tolist())
+        res["sample"] = dict(date=item["date"], kind="grid", rent=item["rent"], partnered=item["partnered"], persons=len(df))
+    elif item["kind"] == "pensioners":
         # pensioner households swept along the earnings points (pension from ~0 to well above the subsistence level)
         base = popgen.population(rng, d, n_hh=2, params=params, archetypes=["pensioner", "pens_couple"], cycle=True)
         base["rentner"] = True
